@@ -22,6 +22,13 @@ for sid in sorted(os.listdir('/verif/seeded')):
     meta['check_run']={"cmd":"scratch worktree of /repo HEAD + git apply seeded/%s/patch.diff; VERIF_REPO=<worktree> bin/check %s %s (tools/seedlane.sh); worktree reset afterwards"%(sid,sid[:3],tier),
       "repo_head":head,"detected":detected,"exit_code":rc,"violation_keys":keys[:12],"wall_s":wall}
     if 'note' in old: meta['check_run']['note']=old['note']
+    # runs of another property's check on this seed (tools/seedlane.sh <sid>@<PROP>:patch)
+    import glob
+    for f in glob.glob('/tmp/lanes/results/%s-by-*.txt'%sid):
+        other=f.rsplit('-by-',1)[1][:-4]
+        o=open(f[:-4]+'.out').read()
+        m2=re.match(r'(\S+) rc=(\d+) wall=(\d+)',open(f).read().splitlines()[0])
+        meta['check_run']['also_run']={"property":other,"detected":int(m2.group(2))==1 and 'VIOLATION' in o,"violation_keys":re.findall(r'^  key=(\S+)',o,re.M)[:6]}
     json.dump(meta,open(p,'w'),indent=1)
     rows.append((sid,detected,keys[:3]))
 nd=[r[0] for r in rows if not r[1]]
